@@ -42,6 +42,8 @@ func c11Small() *Scenario {
 	s.Actions = streamActions(time.Second)
 	s.Actions = append(s.Actions, timeSteps(800, 700*time.Millisecond, 999_999_999*time.Nanosecond, 30*time.Second, 61*time.Second, 700*time.Second)...)
 	s.Actions = append(s.Actions, aroundZero()...)
+	// the schedule does not depend on the validator fee: also at its boundaries
+	s.Actions = append(s.Actions, govOnce("gov(fee=1)", model.StrParams, "1.000000000000000000"), govOnce("gov(fee=0)", model.StrParams, "0.000000000000000000"))
 	// block-time gap 0 s: two operations on one stream in the same block
 	two := func(name string, a, b model.Msg) Action {
 		return Action{Name: name, Dt: 700 * time.Millisecond, Txs: func(*model.State) []model.Tx { return []model.Tx{{Msgs: []model.Msg{a}}, {Msgs: []model.Msg{b}}} }}
